@@ -201,3 +201,32 @@ MANIFEST = {
     "technique": "per-path outcome summaries of sibling trait impls compared against a common reference triple; char-class translation of guards",
     "design_ref": "DESIGN.md 5.13",
 }
+
+
+def idempotence_obligations(ctx, facts, rule="IDEMP-SHAPES"):
+    """What C10 needs from the string shapes: finish(finish(x)) = finish(x) on values that passed once.
+    Weaker than SIBLING: a shape that validates differently but idempotently is not reported here."""
+    summ = boolsum.Summarizer(facts)
+    impls = string_shape_impls(facts)
+    for st, fns in sorted(impls.items()):
+        k = fns.get("finish")
+        if not k:
+            continue
+        site = fn_site(facts, k)
+        outs = flat_outcomes(facts, k, summ)
+        oks = [o for o in outs if o["result"] == ("ok",)]
+        errs = [o for o in outs if o["result"][0] == "err"]
+        unknown = [u for o in outs for u in o["unknown"]]
+        ctx.ob(rule, "%s: finish is understood (guards and effects)" % st, not unknown, fn=k, site=site, detail="; ".join(unknown)[:200])
+        if unknown:
+            continue
+        ts = set(o["transform"] for o in oks)
+        ctx.ob(rule, "%s: every successful path applies an idempotent transform (none or ASCII lower-casing)" % st, ts <= {"id", "ascii_lower"}, fn=k, site=site, detail=str(sorted(ts)))
+        if "ascii_lower" in ts:
+            for o in oks:
+                if o["transform"] == "id":
+                    guarded = any(c[0] == "all" and c[2] is True and (c[1] & AZ) == 0 for c in o["conds"])
+                    ctx.ob(rule, "%s%s: the untouched path is taken only for text without [A-Z] (so a second pass cannot change it)" % (st, "::" + o["variant"] if o["variant"] else ""), guarded, fn=k, site=site, detail=str(sorted((c[0], c[-1]) for c in o["conds"])))
+        for o in errs:
+            stable = ("valid_type", False) in o["conds"]
+            ctx.ob(rule, "%s: a refusal depends only on the valid-type predicate, which is invariant under ASCII lower-casing" % st, stable, fn=k, site=site, detail=str(sorted((c[0], c[-1]) for c in o["conds"])))
